@@ -36,6 +36,7 @@ func init() {
 		ID: "C09",
 		Explanation: "Decided: (R1) every path of the restart step (success and failure) resumes the mailbox; (R2) the termination path resumes it; (R3) the resume decision and both graceful decisions broadcast the resume command to every target along the escalation chain, after the poison message; the broadcast visits every chained context and every target exactly once; " +
 			"(R4) every decision value takes a branch (shared with C08.R4); (R5) zombie: behaviour replaced by the empty one, the restart-failure path tells nobody, a zombie passes the kill CAS, the zombie release path runs the termination cleanup; (R6) a paused mailbox neither spins nor misses the resume: the consumer exits only with the system queue observed empty after the release, re-arms only for eligible work, and Resume wakes (C01.R2/R7/R8). " +
+			"(R10) the supervisor pauses its targets before it sends the directive; a target that ignores the directive (CAS running→killing lost) is not un-paused by the restart step or by its termination: a zombie resumes its own mailbox on the ignored-Restart path (F31, fixed); an actor that is already stopping neither forwards an ignored immediate Kill to its children nor resumes them on an ignored Restart, so a failed child whose failure was escalated by a stopping supervisor stays paused forever and Stop times out (F33, KNOWN FINDING, not repaired). " +
 			"(R8) truth table of the restart step over the results of its hooks: whenever an executed hook reported failure the step marks the actor a zombie and never returns it to running, whatever the other hooks report; (R9 = C01.R6) user messages are popped only under a fresh not-paused observation after every handler call, so mail queued behind a failing message stays queued for the restarted / resumed incarnation. NOT decided: delivery order of the surviving queue at run time, concurrent sibling failures.",
 		Rules: []Rule{
 			{ID: "C09.R1", Min: 1, Desc: "restart step resumes on every path", Fn: c09RestartResumes},
@@ -44,6 +45,7 @@ func init() {
 			{ID: "C09.R4", Min: 1, Desc: "every decision takes a branch", Fn: c08Exhaustive},
 			{ID: "C09.R5", Min: 4, Desc: "zombie discipline", Fn: c09Zombie},
 			{ID: "C09.R8", Min: 4, Desc: "a failed restart hook decides: zombie, whatever later hooks return", Fn: c09HookDecides},
+			{ID: "C09.R10", Min: 3, Desc: "a directive that its target ignores strands nobody in a paused mailbox", Fn: c09IgnoredDirectives},
 			{ID: "C09.R9", Min: 3, Desc: "a paused mailbox hands no user message over (C01.R6 pause gate)", Fn: c01PauseGate},
 			{ID: "C09.R7", Min: 2, Desc: "everything that was paused is recorded as a target (so the resume broadcast reaches it)", Fn: c08RecordedTargets},
 			{ID: "C09.R6", Min: 7, Desc: "paused mailbox neither spins nor misses the resume (a pending system message — the resume command — always re-arms)", Fn: func(p *Program, r *Report) { c01Release(p, r); c01NoSpin(p, r); c01Resume(p, r) }},
@@ -1014,9 +1016,26 @@ func c09Zombie(p *Program, r *Report) {
 		}
 	}
 	clean := nodesWhere(og, func(in ssa.Instruction) bool { c := callOf(in); return c != nil && c.StaticCallee() == lc.Cleanup })
+	// the notice that releases a zombie is its own: edges of <message>.Ref.Equals(<own ref>)
+	selfT, selfF := callEdges(og, func(c *ssa.Call) bool {
+		name := ""
+		if c.Call.IsInvoke() {
+			name = c.Call.Method.Name()
+		} else if c.Call.StaticCallee() != nil {
+			name = c.Call.StaticCallee().Name()
+		}
+		if name != "Equals" {
+			return false
+		}
+		recv, args := callRecv(&c.Call), callArgs(&c.Call)
+		if recv == nil || len(args) == 0 {
+			return false
+		}
+		return anyContains(p.origins(recv), "OnKilled.Ref<-") && allContain(p.origins(args[len(args)-1]), "Context.ref<-")
+	})
 	okD := len(ozT) > 0 && len(clean) > 0
 	for e := range ozT {
-		if !clean[e.to] && anyIn(og.Reach([]int{e.to}, clean, nil), og.Exits) {
+		if !clean[e.to] && anyIn(og.Reach([]int{e.to}, clean, selfF), og.Exits) {
 			okD = false
 		}
 	}
@@ -1041,7 +1060,23 @@ func c09Zombie(p *Program, r *Report) {
 			okD = false
 		}
 	}
-	r.Check(okD, "zombie release runs the termination cleanup", firstPos(og, clean), "on the zombie edge of the own-death handler every path calls the cleanup step after setting continue=true and restarting=false")
+	r.Check(okD, "zombie release runs the termination cleanup", firstPos(og, clean), "on the zombie edge of the own-death handler every path (for the actor's own death notice) calls the cleanup step after setting continue=true and restarting=false")
+	// (e) ... and only its own death notice releases it: the death of an actor it watched (or of a child) must not
+	avZ := p.assumeAvoid(og, map[*types.Var]bool{lc.Zombie: true})
+	zr := og.Reach(og.entry(), nil, avZ)
+	okE := len(selfT) > 0
+	var pos token.Pos = lc.OnKilledFn.Pos()
+	for c := range clean {
+		if !zr[c] {
+			continue
+		}
+		// reachable with zombie==true without taking the own-ref edge?
+		if og.Reach(og.entry(), nil, mergeEdges(avZ, selfT))[c] {
+			okE = false
+			pos = og.Nodes[c].Pos()
+		}
+	}
+	r.Check(okE, "only its own death notice releases a zombie", pos, "with zombie==true the cleanup step is reachable only through the true edge of message.Ref.Equals(own ref): an OnKilled naming another actor (one it watched, a child) does not terminate a zombie nobody killed")
 }
 
 // emptyFuncGlobal: the package-level variable is initialised with a function literal that has an empty body.
@@ -1303,4 +1338,137 @@ func c09HookDecides(p *Program, r *Report) {
 func (p *Program) guardEvalHooks(fn *ssa.Function, spec guardSpec, cell map[string]gval, hooks map[ssa.Instruction]string) []guardOutcome {
 	spec.AtomEvents = true
 	return p.guardEval(fn, spec, cell)
+}
+
+
+// toChildrenTells: Kill / tell sites of g.Fn whose recipient derives from the child set.
+func toChildrenTells(p *Program, lc *lifecycle, g *IG, children *types.Var) map[int]bool {
+	out := map[int]bool{}
+	kill := p.ctxMethod(lc, "Kill")
+	for i, in := range g.Nodes {
+		c := callOf(in)
+		if c == nil {
+			continue
+		}
+		var rcpt ssa.Value
+		if c.StaticCallee() == kill && len(c.Args) > 1 {
+			rcpt = c.Args[1]
+		}
+		for _, ts := range p.tellSites(g.Fn) {
+			if ts.In == in {
+				rcpt = ts.Recipient
+			}
+		}
+		if rcpt == nil {
+			continue
+		}
+		o := p.origins(rcpt)
+		if anyContains(o, "Children") || (children != nil && anyContains(o, "."+children.Name()+"<-")) {
+			out[i] = true
+		}
+	}
+	return out
+}
+
+// c09IgnoredDirectives: see the explanation (R10).
+func c09IgnoredDirectives(p *Program, r *Report) {
+	lc := lcOrFail(p, r)
+	if lc == nil {
+		return
+	}
+	resumeSelf := func(g *IG) map[int]bool {
+		return nodesWhere(g, func(in ssa.Instruction) bool {
+			c := callOf(in)
+			if c == nil || !c.IsInvoke() || c.Method.Name() != "Resume" {
+				return false
+			}
+			f, _ := fieldLoad(c.Value)
+			return f == lc.MailboxF
+		})
+	}
+	// reaches the children: a Kill / tell whose recipient derives from the child table
+	children := p.childrenField(lc)
+	toChildren := func(g *IG) map[int]bool {
+		per := toChildrenTells(p, lc, g, children)
+		out := map[int]bool{}
+		if len(per) == 0 {
+			return out
+		}
+		// the node that obtains the child set (a loop over it may run zero times: no children, nothing stranded)
+		for i, in := range g.Nodes {
+			if c := callOf(in); c != nil && c.StaticCallee() != nil && c.StaticCallee().Name() == "Children" && c.StaticCallee().Signature.Recv() != nil && namedOf(c.StaticCallee().Signature.Recv().Type()) == lc.Ctx {
+				out[i] = true
+			}
+			if u, ok := in.(*ssa.UnOp); ok && u.Op == token.MUL && children != nil {
+				if f, _ := fieldAddr(u.X); f == children {
+					out[i] = true
+				}
+			}
+		}
+		return out
+	}
+	// (a) ignored Restart, zombie: resumes itself
+	rg := p.ig(lc.OnRestart)
+	_, _, rfail := p.casEdges(rg, lc.State, &lc.Killing)
+	if len(rfail) == 0 {
+		r.Unresolved("CAS(running→killing) of the restart handler")
+		return
+	}
+	res := resumeSelf(rg)
+	avNotZ := p.assumeAvoid(rg, map[*types.Var]bool{lc.Zombie: true})
+	okA := true
+	for e := range rfail {
+		if !res[e.to] && anyIn(rg.Reach([]int{e.to}, res, avNotZ), rg.Exits) {
+			okA = false
+		}
+	}
+	r.Check(okA, "ignored Restart: a zombie resumes its mailbox", lc.OnRestart.Pos(), "on the CAS-lost edge of the restart handler, with zombie==true, every path to the return calls Mailbox.Resume(): the supervisor paused the zombie before sending the Restart and nothing else will ever un-pause it")
+	// (b) ignored Restart, already stopping: children un-paused
+	tc := toChildren(rg)
+	// assumed situation: not a zombie, a plain stop in progress (state observed killing, no restart marker): edges
+	// contradicting it are not constrained — a dead actor has no children left, a restarting one is resumed by its restart step
+	stopping := func(g *IG) map[edge]bool {
+		av := p.assumeAvoid(g, map[*types.Var]bool{lc.Zombie: false})
+		for _, ef := range p.edgeFacts(g) {
+			switch {
+			case ef.Field == lc.State && g.Idx[ef.Load] > 0 && contradicts(ef.Fact, lc.Killing):
+				// only loads made after the lost CAS describe the state the ignored directive found
+				av[ef.E] = true
+			case ef.Field == lc.RestartingF && ef.Fact.IsNil && ef.Fact.Op == token.NEQ:
+				av[ef.E] = true
+			}
+		}
+		return av
+	}
+	avZ := stopping(rg)
+	okB := true
+	for e := range rfail {
+		if !tc[e.to] && anyIn(rg.Reach([]int{e.to}, tc, avZ), rg.Exits) {
+			okB = false
+		}
+	}
+	r.Check(okB, "ignored Restart: a stopping actor un-pauses its children", lc.OnRestart.Pos(), "on the CAS-lost edge of the restart handler (actor already stopping) every path resumes / kills the children: a child paused for this supervision round still has its poison kill queued behind the pause")
+	// (c) ignored Kill, already stopping: forwarded to the children
+	kg := p.ig(lc.OnKill)
+	_, _, kfail := p.casEdges(kg, lc.State, &lc.Killing)
+	if len(kfail) == 0 {
+		r.Unresolved("CAS(running→killing) of the kill handler")
+		return
+	}
+	tk := toChildren(kg)
+	avK := stopping(kg)
+	// a graceful (poison) kill is not constrained: the graceful branches of the decision broadcast the resume command along
+	// the whole escalation chain themselves
+	for _, ef := range p.edgeFacts(kg) {
+		if ef.Field.Name() == "Poison" && ef.Fact.Bool && ef.Fact.Op == token.NEQ {
+			avK[ef.E] = true
+		}
+	}
+	okC := true
+	for e := range kfail {
+		if !tk[e.to] && anyIn(kg.Reach([]int{e.to}, tk, avK), kg.Exits) {
+			okC = false
+		}
+	}
+	r.Check(okC, "ignored Kill: a stopping actor forwards it to its children", lc.OnKill.Pos(), "on the CAS-lost edge of the kill handler (actor already stopping) every path forwards the kill to / resumes the children: an immediate Stop decided for a supervisor that is already stopping gracefully must still reach a child paused behind its poison kill")
 }
